@@ -218,7 +218,7 @@ example : cssUnescape [92, 51, 49, 32, 97] = [49, 97] := by decide
 example : cssUnescape [92, 51, 49, 97] = [0x31A] := by decide
 -- faithfulness corners of the grammar that `escape` never produces
 example : scanIdent [92] = some ([92], []) := by decide                       -- `\` `$`
-example : scanIdent [92, 10] = some ([92], [10]) := by decide                 -- `$` before final "\n"
+example : scanIdent [92, 10] = none := by decide                               -- `\Z` is not before a final "\n"
 example : scanIdent [92, 49, 13, 10, 97] = some ([92, 49, 13, 10, 97], []) := by decide  -- CRLF one unit
 example : scanIdent [92, 49, 13, 13, 97] = some ([92, 49, 13], [13, 97]) := by decide
 example : scanIdent [92, 49, 50, 51, 52, 53, 54, 55] = some ([92, 49, 50, 51, 52, 53, 54, 55], []) := by
@@ -236,7 +236,7 @@ example : cssUnescape (escape [0x7F, 0x80, 0xD800, 0x10FFFF]) = [0x7F, 0x80, 0xD
 example : cssUnescape [92, 48, 32] = [0xFFFD] := by decide                    -- `\0 ` → U+FFFD
 example : cssUnescape [92, 49, 49, 48, 48, 48, 48] = [0xFFFD] := by decide    -- `\110000` → U+FFFD
 example : cssUnescape [92] = [0xFFFD] := by decide
-example : cssUnescape [92, 10] = [0xFFFD, 10] := by decide
+example : cssUnescape [92, 10] = [92, 10] := by decide
 example : cssUnescape [92, 10, 97] = [92, 10, 97] := by decide
 -- the ValueError corner: '\\31/**/' raises in Python, '\\31 /**/' does not
 example : cssUnescapeRaises [92, 51, 49, 47, 42, 42, 47] = true := by decide
